@@ -458,7 +458,8 @@ class Context(object):
 
     def try_cvc5(self, extra):
         from . import solve
-        return solve.cvc5_check(self.solver, extra, self.budget.prove_ms)
+        # cvc5 decides what z3 left open; it gets at least a minute so that its verdict does not depend on machine load
+        return solve.cvc5_check(self.solver, extra, max(self.budget.prove_ms, 60000))
 
     def concretise(self, model):
         from .concretise import model_inputs
